@@ -15,7 +15,8 @@ RULE = ('A transport provider hands out successive SimNet transports, each attac
         'through a server that went silent, explicit reconnect() while healthy}, with reconnect() called by the program, '
         'from on_close, or from on_keepalive_timeout, at generated moments relative to 0-4 pending interactions of all '
         'models, plus requests issued while the reconnect is in progress, a transport provider that takes 0-5 ticks and a '
-        'transport whose own connect() suspends for 1-3 ticks, a client writer that stopped draining (pending requests still '
+        'transport whose own connect() suspends for 1-3 ticks, an old transport whose close() takes 2-4 ticks (requests '
+        'issued 0-3 ticks after the reconnect request fall before, into or after that window), a client writer that stopped draining (pending requests still '
         'queued when the connection ends), lease-honouring clients whose pending requests are waiting for a lease when the '
         'connection ends (the next server grants a fresh lease), a server that is half-way through sending a fragmented '
         'request when the connection ends (the next server starts its ids over and asks again); after every reconnect two probes (a '
@@ -47,7 +48,9 @@ def cases(draw):
         endings.append({'kind': kind, 'pending': pending, 'ticks_before': draw(st.integers(0, 4)),
                         'during': draw(st.sampled_from([None, None, 'rr', 'rr2', 'rr3'])),
                         # issued in the same turn as the reconnect request (before connect() runs) or one turn later
-                        'during_tick': draw(st.sampled_from([0, 0, 1])),
+                        'during_tick': draw(st.sampled_from([0, 0, 1, 2, 3])),
+                        # the old transport's close() takes a few loop iterations (requests can be issued meanwhile)
+                        'close_ticks': draw(st.sampled_from([0, 0, 2, 4])),
                         'provider_delay': draw(st.sampled_from([0, 0, 2, 5])),
                         # the next transport's own connect() (a handshake) takes a few loop iterations
                         'connect_suspend': draw(st.sampled_from([None, None, 1, 2, 3])),
@@ -90,6 +93,7 @@ def build(case):
     cfg = {'msg': case['msg'], 'frag': [case['frag'], case['frag']], 'rbuf': [64, 64], 'ka': P / 1000.0, 'life': L / 1000.0,
            'transports': len(case['endings']) + 1,
            'provider_delay': [0] + [e.get('provider_delay', 0) for e in case['endings']],
+           'close_ticks': [e.get('close_ticks', 0) for e in case['endings']] + [0],
            # (not combined with requests issued during the reconnect: that schedule is the D13 finding of C16)
            'connect': [None] + [['ticks', e['connect_suspend']] if e.get('connect_suspend') and not e.get('during') else None
                                 for e in case['endings']]}
@@ -150,7 +154,7 @@ def build(case):
         if e['during']:
             # requests issued while the reconnect is in progress (the provider may take a while to deliver a transport)
             if e.get('during_tick'):
-                ops.append(['tick', 1])
+                ops.append(['tick', e['during_tick']])
             for _ in range({'rr': 1, 'rr2': 2, 'rr3': 3}[e['during']]):
                 inter.append({'k': 'rr', 'side': 'c', 'req': [2, 2], 'resp': {'mode': 'now', 'p': [4, 4]}})
                 cur['during'].append(len(inter) - 1)
